@@ -461,34 +461,73 @@ func c08R5(p *core.Program, r *core.Report) {
 		}
 		kv := core.VarOf(info, loop.Value)
 		var seq []string
+		// the text written per entry, whatever the spelling (four WriteStrings, one Fprintf, ...):
+		// operands are classified as K (the key) or V (Data[key]); constants are the separators
+		full := tmpl{}
+		okSeq := true
 		for _, s := range loop.Body.List {
 			es, ok := s.(*ast.ExprStmt)
 			if !ok {
-				seq = append(seq, "?")
+				if as, isAs := s.(*ast.AssignStmt); isAs && len(as.Rhs) == 1 {
+					// `_, _ = fmt.Fprintf(b, ...)`
+					if c, isCall := ast.Unparen(as.Rhs[0]).(*ast.CallExpr); isCall {
+						if _, t, tok := writeTemplate(info, c); tok {
+							full = full.concat(t)
+							continue
+						}
+					}
+				}
+				okSeq = false
 				continue
 			}
 			c, ok := es.X.(*ast.CallExpr)
-			if !ok || !strings.HasPrefix(core.CalleeName(info, c), "(*bytes.Buffer).Write") || len(c.Args) != 1 {
-				seq = append(seq, "?")
+			if !ok {
+				okSeq = false
 				continue
 			}
-			a := ast.Unparen(c.Args[0])
-			switch {
-			case core.VarOf(info, a) == kv && kv != nil:
-				seq = append(seq, "K")
-			case constStrIs(info, a, " ") || constIs(info, a, ' '):
-				seq = append(seq, "SP")
-			case constStrIs(info, a, "\n") || constIs(info, a, '\n'):
-				seq = append(seq, "NL")
-			default:
-				if ix, ok := a.(*ast.IndexExpr); ok && core.VarOf(info, ix.Index) == kv {
-					if fld := core.FieldOf(info, ix.X); fld != nil && fld.Name() == "Data" {
-						seq = append(seq, "V")
-						continue
-					}
-				}
-				seq = append(seq, "?")
+			_, t, tok := writeTemplate(info, c)
+			if !tok {
+				okSeq = false
+				continue
 			}
+			full = full.concat(t)
+		}
+		if okSeq {
+			k := 0
+			var sb strings.Builder
+			for i := 0; i < len(full.Text); i++ {
+				ch := full.Text[i]
+				switch {
+				case ch == 0:
+					a := ast.Unparen(full.Ops[k])
+					k++
+					switch {
+					case core.VarOf(info, a) == kv && kv != nil:
+						sb.WriteString("K ")
+					default:
+						isV := false
+						if ix, ok := a.(*ast.IndexExpr); ok && core.VarOf(info, ix.Index) == kv {
+							if fld := core.FieldOf(info, ix.X); fld != nil && fld.Name() == "Data" {
+								isV = true
+							}
+						}
+						if isV {
+							sb.WriteString("V ")
+						} else {
+							sb.WriteString("? ")
+						}
+					}
+				case ch == ' ':
+					sb.WriteString("SP ")
+				case ch == '\n':
+					sb.WriteString("NL ")
+				default:
+					sb.WriteString("? ")
+				}
+			}
+			seq = strings.Fields(sb.String())
+		} else {
+			seq = []string{"?"}
 		}
 		got := strings.Join(seq, " ")
 		switch {
